@@ -193,7 +193,7 @@ class Rig:
     async def probe_send(self, where: str) -> None:
         from ramses_tx import Command
 
-        if self.stack != "port":
+        if self.stack != "port" or self.gwy._disable_sending:  # (a listen-only gateway has nothing to send with)
             return
         port = self.gwy._vrf_port
         before = len(port.writes)
@@ -402,7 +402,11 @@ async def snapshot_ops(rig: Rig, rng) -> None:
 
 async def run_history(loop: vloop.VirtualLoop, ctx, h: hist.History, stack: str, eavesdrop: bool, trial: int, discovery: bool = False) -> None:
     rng = ctx.rng
-    rig = Rig(loop, ctx, stack, eavesdrop, cfg={"disable_discovery": not discovery, "enable_eavesdrop": eavesdrop})
+    cfg = {"disable_discovery": not discovery, "enable_eavesdrop": eavesdrop}
+    if stack == "port" and not discovery and rng.random() < 0.25:
+        cfg["disable_sending"] = True  # a listen-only gateway on a live port: snapshots and restores are used there too
+        ctx.count("histories.listen_only_port")
+    rig = Rig(loop, ctx, stack, eavesdrop, cfg=cfg)
     if discovery:
         ctx.count("histories.discovery_on")
     await rig.start()
